@@ -1457,4 +1457,135 @@ theorem bk_run (s : State) (ops : List Op) (hi : Inv s) : BK s (run s ops) := by
   | nil => exact BK.refl s
   | cons op ops ih => exact BK.trans (bk_step s op hi) (ih _ (inv_step s op hi))
 
+/-! ### completion callbacks of operation objects: called exactly once, by the resolution -/
+
+/-- the completion callback of an operation's result future is called exactly once, by the resolution -/
+def FutCb (x : Fut) : Prop :=
+  x.cbCalls = (if x.isOp && x.ready then 1 else 0) ∧ x.cb = (x.isOp && !x.ready)
+
+def CbInv (s : State) : Prop := ∀ f, FutCb (s.fut f)
+
+theorem cb_init (prog : Nat → List Act) (n : Nat) : CbInv (init prog n) := by
+  intro f; simp [init, FutCb]
+
+theorem cb_setCo (s : State) (c : Nat) (x : Coro) (h : CbInv s) : CbInv (setCo s c x) := h
+
+theorem cb_setFut (s : State) (f : Nat) (X : Fut) (h : CbInv s) (hx : FutCb X) : CbInv (setFut s f X) := by
+  intro g; simp only [setFut, upd_apply]; split
+  · exact hx
+  · exact h g
+
+theorem cb_newFut (s : State) (o : Option Nat) (w : List Nat) (op : Bool) (h : CbInv s) : CbInv (newFut s o w op) := by
+  intro g; simp only [newFut, setFut, upd_apply]; split
+  · simp [FutCb]
+  · exact h g
+
+theorem cb_resolve (s : State) (f : Nat) (h : CbInv s) : CbInv (resolve s f) := by
+  intro g; simp only [resolve, upd_apply]; split
+  · obtain ⟨h1, h2⟩ := h f
+    simp only [FutCb] at *
+    cases hr : (s.fut f).ready <;> cases ho : (s.fut f).isOp <;> simp_all
+  · exact h g
+
+theorem cb_create (s : State) (c : Nat) (h : CbInv s) : CbInv (create s c) := h
+theorem cb_dropU (s : State) (c : Nat) (h : CbInv s) : CbInv (dropU s c) := h
+theorem cb_startCoro (s : State) (c : Nat) (b : Option Nat) (h : CbInv s) : CbInv (startCoro s c b) := h
+theorem cb_setSt (s : State) (c : Nat) (st : St) (h : CbInv s) : CbInv (setSt s c st) := h
+
+theorem cb_deliver (s : State) (c f : Nat) (o : Outcome) (h : CbInv s) : CbInv (deliver s c f o) := by
+  apply cb_resolve
+  apply cb_setFut _ _ _ h
+  have := h f; simpa [FutCb] using this
+
+theorem cb_finish (s : State) (c : Nat) (o : Outcome) (h : CbInv s) : CbInv (finish s c o) := by
+  unfold finish
+  split
+  · exact h
+  · exact cb_deliver s c _ o h
+
+theorem cb_consume (s : State) (c f : Nat) (ct : Bool) (h : CbInv s) : CbInv (consume s c f ct) := by
+  unfold consume
+  split
+  · exact h
+  · split
+    · exact h
+    · exact cb_finish s c _ h
+
+theorem cb_subscribe (s : State) (c f : Nat) (ct : Bool) (h : CbInv s) : CbInv (subscribe s c f ct) := by
+  unfold subscribe
+  apply cb_setCo
+  apply cb_setFut _ _ _ h
+  have := h f; simpa [FutCb] using this
+
+theorem cb_spawnBound (s : State) (c j : Nat) (h : CbInv s) : CbInv (spawnBound s c j) :=
+  cb_startCoro _ _ _ (cb_newFut _ _ _ _ (cb_create s j h))
+
+theorem cb_execAct (s : State) (c : Nat) (a : Act) (h : CbInv s) : CbInv (execAct s c a) := by
+  cases a with
+  | compute => exact h
+  | awaitFut k ct => simp only [execAct]; split <;> exact h
+  | awaitChild j direct ct =>
+    simp only [execAct]; split
+    · split
+      · exact cb_subscribe _ c _ ct (cb_spawnBound s c j h)
+      · exact cb_setSt _ c _ (cb_spawnBound s c j h)
+    · exact h
+  | detachChild j awaited => simp only [execAct]; split <;> (try split) <;> exact h
+  | dropChild j => simp only [execAct]; split <;> exact h
+  | throw e => exact cb_finish s c _ h
+  | ret v => exact cb_finish s c _ h
+
+theorem cb_stepCo (s : State) (c : Nat) (h : CbInv s) : CbInv (stepCo s c).1 := by
+  unfold stepCo
+  split
+  · exact h
+  · exact h
+  · exact cb_consume s c _ _ h
+  · split
+    · exact cb_consume s c _ _ h
+    · exact cb_subscribe s c _ _ h
+  · split
+    · exact cb_finish s c _ h
+    · exact cb_execAct _ c _ (cb_setCo s c _ h)
+  · exact h
+
+theorem cb_step (s : State) (op : Op) (h : CbInv s) : CbInv (step s op).1 := by
+  cases op with
+  | create c => simp only [step]; split <;> exact h
+  | dropU c => simp only [step]; split <;> exact h
+  | detach c => simp only [step]; split <;> exact h
+  | start c o => simp only [step]; split
+                 · exact cb_startCoro _ c _ (cb_newFut s none [] o h)
+                 · exact h
+  | startP c k =>
+    simp only [step]; split
+    · split
+      · exact h
+      · apply cb_startCoro
+        apply cb_setFut _ _ _ h
+        have := h k; simpa [FutCb] using this
+    · exact h
+  | setF k o =>
+    simp only [step, setF]; split
+    · split
+      · exact h
+      · apply cb_resolve
+        apply cb_setFut _ _ _ h
+        have := h k; simpa [FutCb] using this
+    · exact h
+  | dropP k =>
+    simp only [step, dropP]; split
+    · split
+      · exact h
+      · apply cb_resolve
+        apply cb_setFut _ _ _ h
+        have := h k; simpa [FutCb] using this
+    · exact h
+  | step c => exact cb_stepCo s c h
+
+theorem cb_run (s : State) (ops : List Op) (h : CbInv s) : CbInv (run s ops) := by
+  induction ops generalizing s with
+  | nil => exact h
+  | cons op ops ih => exact ih _ (cb_step s op h)
+
 end Cocls.Async
